@@ -134,6 +134,32 @@ class World:
     def active(self):
         prev = rt.CUR
         rt.CUR = self
+        env = self.spec.get("env") if isinstance(self.spec, dict) else None
+        undo = []
+        if env:
+            import logging
+            import warnings
+
+            from .build import PROG_MODULE
+
+            if env.get("log_level"):
+                for name in ("labrea", PROG_MODULE):
+                    lg = logging.getLogger(name)
+                    undo.append((lambda lg=lg, lvl=lg.level, hs=list(lg.handlers), pr=lg.propagate: (lg.setLevel(lvl), setattr(lg, "handlers", hs), setattr(lg, "propagate", pr))))
+                    if not getattr(lg, "_labsim_managed", False):  # (C16 installs its own sink and levels)
+                        lg.setLevel(getattr(logging, env["log_level"]))
+                        if not lg.handlers:
+                            lg.addHandler(logging.NullHandler())
+                        lg.propagate = False
+            if env.get("log_disable"):
+                was = logging.root.manager.disable
+                logging.disable(logging.CRITICAL)
+                undo.append(lambda was=was: logging.disable(was))
+            if env.get("warn_error"):
+                cm = warnings.catch_warnings()
+                cm.__enter__()
+                warnings.simplefilter("error", RuntimeWarning)
+                undo.append(lambda cm=cm: cm.__exit__(None, None, None))
         try:
             if self.log_handler:
                 # the user's own LogRequest handler (user code, a fault site like any other): it notes the record and passes
@@ -155,6 +181,8 @@ class World:
                 yield self
         finally:
             rt.CUR = prev
+            for u in reversed(undo):
+                u()
 
     # ------------------------------------------------------------------ stub callbacks
     def on_call(self, kind, name, kw):
